@@ -11,9 +11,11 @@ grid size and every value type that is a commutative additive monoid.
 import Pyiga.Proofs.Layout
 import Pyiga.Proofs.AsmSum
 import Pyiga.Proofs.AsmIndex
+import Pyiga.Proofs.LayoutAssign
+import Pyiga.Proofs.KernelExpr
 
 namespace Pyiga.Props.C01
-open Pyiga.Index Pyiga.Layout Pyiga.Asm
+open Pyiga.Index Pyiga.Layout Pyiga.Asm Pyiga.KExpr
 
 /-! ## layout -/
 
@@ -69,6 +71,12 @@ theorem sym_index_range (n i j : Nat) (hi : i < n) (hj : j < n) :
 /-- … and onto it: a bijection `{(i,j) | i ≤ j < n} → range (n(n+1)/2)`. -/
 theorem sym_index_surjective (n s : Nat) (hs : s < n * (n + 1) / 2) :
     ∃ i j, i ≤ j ∧ j < n ∧ symIndexToSeq n i j = s := symIndexToSeq_surj n s hs
+
+/-- `gen_assign` (which skips `i > j` for symmetric variables) writes every slot of a symmetric
+`m x m` variable exactly once: the list of slots it assigns is a permutation of `range (storage_size)`. -/
+theorem gen_assign_slots_once (v : Var) (m : Nat) (hs : v.sym = true) (hshape : v.shape = [m, m]) :
+    ((assignedPairs v m m).map (fun p => storageIndex v [p.1, p.2])).Perm (List.range (storageSize v)) :=
+  assignedPairs_slots v m hs hshape
 
 example : symIndexToSeq 3 1 2 = 4 ∧ symIndexToSeq 3 2 1 = 4 ∧ symIndexToSeq 3 2 2 = 5 := by decide
 example : (allocateArray [⟨0, [], false⟩, ⟨1, [2], false⟩, ⟨2, [3, 3], true⟩]).2 = 9 := by decide
@@ -129,6 +137,55 @@ example : entryImpl2 [⟨0, 4⟩] [⟨2, 6⟩] [0]
       (fun q => (if q.getD 0 0 < 4 then 1 else 0) * (if 2 ≤ q.getD 0 0 then (1 : Nat) else 0)) = 2 ∧
     combine [6] (fun q => (if q.getD 0 0 < 4 then 1 else 0) * (if 2 ≤ q.getD 0 0 then (1 : Nat) else 0)) = 2 := by
   decide
+
+/-! ## the linearity hypothesis as a decidable syntactic predicate -/
+
+/-- a kernel expression that is syntactically linear in basis function `bf` (`IsLinearIn`, decidable)
+evaluates to `0` when that function's jet is `0` — over any field, for any field values and any
+interpretation of the builtin functions. -/
+theorem linear_expr_vanishes {α : Type} [Field α] [DecidableEq α] (bf : Nat) (fields : Nat → α)
+    (jet : Nat → Nat → α) (fnsem : Nat → α → α) (hz : ∀ D, jet bf D = 0) (e : KExpr α)
+    (h : IsLinearIn bf e = true) : eval fields jet fnsem e = 0 :=
+  eval_zero_of_isLinearIn bf fields jet fnsem hz e h
+
+/-- … and is additive in that jet (linear, not merely vanishing) -/
+theorem linear_expr_additive {α : Type} [Field α] [DecidableEq α] (bf : Nat) (fields : Nat → α)
+    (j1 j2 j : Nat → Nat → α) (fnsem : Nat → α → α)
+    (h1 : ∀ b D, b ≠ bf → j1 b D = j b D) (h2 : ∀ b D, b ≠ bf → j2 b D = j b D)
+    (hs : ∀ D, j bf D = j1 bf D + j2 bf D) (e : KExpr α) (h : IsLinearIn bf e = true) :
+    eval fields j fnsem e = eval fields j1 fnsem e + eval fields j2 fnsem e :=
+  eval_add_of_isLinearIn bf fields j1 j2 j fnsem h1 h2 hs e h
+
+/-- jets of the trial (`bf = 0`) and test (`bf = 1`) function as the kernel sees them -/
+def jets {α : Type} [Zero α] (ju jv : Nat → α) : Nat → Nat → α :=
+  fun bf D => if bf = 0 then ju D else if bf = 1 then jv D else 0
+
+/-- **entry_eq_full_sum with the linearity hypothesis decided syntactically**: for a kernel
+expression `e` with `IsLinearIn 0 e` and `IsLinearIn 1 e` (both decidable), jets vanishing outside
+`nqp·meshsupp`, the generated `entry_impl` computes the sum of `e` over all quadrature nodes. -/
+theorem entry_eq_full_sum_expr {α : Type} [Field α] [DecidableEq α]
+    (suppU suppV : List Intv) (N : List Nat) (e : KExpr α)
+    (fields : List Nat → Nat → α) (fnsem : Nat → α → α) (jetU jetV : List Nat → Nat → α)
+    (hlinU : IsLinearIn 0 e = true) (hlinV : IsLinearIn 1 e = true)
+    (hU : ∀ q ∈ loopNest N, ¬ InSupp suppU q → jetU q = 0)
+    (hV : ∀ q ∈ loopNest N, ¬ InSupp suppV q → jetV q = 0)
+    (hfU : SuppFits suppU N) (hfV : SuppFits suppV N) :
+    entryImpl2 suppU suppV (zeros N) (fun q => eval (fields q) (jets (jetU q) (jetV q)) fnsem e)
+      = combine N (fun q => eval (fields q) (jets (jetU q) (jetV q)) fnsem e) := by
+  apply entryImpl2_eq_full suppU suppV N jetU jetV
+    (fun ju jv q => eval (fields q) (jets ju jv) fnsem e) _ _ hU hV hfU hfV
+  · intro y q
+    exact eval_zero_of_isLinearIn 0 (fields q) _ fnsem (fun D => by simp [jets]) e hlinU
+  · intro x q
+    exact eval_zero_of_isLinearIn 1 (fields q) _ fnsem (fun D => by simp [jets]) e hlinV
+
+/-- non-vacuity: `(c·∂u)·v·W + u·∂v/W` is linear in both, `u·u` and `sin(u)·v` are not -/
+example : IsLinearIn 0 (KExpr.add (.mul (.mul (.mul (.const (2 : Rat)) (.pderiv 0 1)) (.pderiv 1 0)) (.field 3))
+      (.div (.mul (.pderiv 0 0) (.pderiv 1 1)) (.field 3))) = true ∧
+    IsLinearIn 1 (KExpr.add (.mul (.mul (.mul (.const (2 : Rat)) (.pderiv 0 1)) (.pderiv 1 0)) (.field 3))
+      (.div (.mul (.pderiv 0 0) (.pderiv 1 1)) (.field 3))) = true ∧
+    IsLinearIn 0 (KExpr.mul (.pderiv 0 0) (.pderiv 0 0) : KExpr Rat) = false ∧
+    IsLinearIn 0 (KExpr.mul (.fn 0 (.pderiv 0 0)) (.pderiv 1 0) : KExpr Rat) = false := by decide
 
 /-! ## indexing -/
 
